@@ -23,6 +23,9 @@ def run(chk):
     chk.rule('C02-K5', 'the element\'s own HL7 version is passed to every table lookup / datatype test on the build, encode and parse paths')
     forwarding.check_forwarding(chk, c, 'C02-K5', ('version',), check_own=True,
                                 only_callers=lambda fq: fq.split('.')[0] in ('core', 'parser', 'factories'))
+    codelemmas.no_string_ordering(chk, c, 'C02-K7')
+    chk.rule('C02-K6', 'the parsers use the separators and version they are given (no accepted-but-ignored context parameter)')
+    forwarding.dead_context_params(chk, c, 'C02-K6', ('encoding_chars', 'version'), modules=('parser',))
     chk.exhaustive = True
     chk.assume('table modules contain only literals, cross references and the two recognised fix-up loops '
                '(checked: anything else ends the run as ANALYSIS-ERROR)')
